@@ -63,8 +63,8 @@ def register(reg):
     reg.add(Contract(
         f'{CO}:ColorPair.make_readable',
         params={'self': PAIR_OBJ, 'mode': 'int', 'very_readable': 'bool', 'show': 'bool', 'save_report': 'bool'},
-        pre=pre, result='unk', pure=False, raises=('Exception?',),
-        exc_posts={'Exception?': lambda S, a: S.Or(a.show, a.save_report)},
+        pre=pre, result='unk', pure=False, raises=(),
+        effects_only_if=lambda S, a: S.Or(a.show, a.save_report),
         posts={
             'shape': shape_ok,
             'valid': when_valid(lambda S, a, r, v, t, b: S.rgb8(d(S, r)) if d(S, r) is not None else S.false),
@@ -80,5 +80,19 @@ def register(reg):
                 S.teq(d(S, r), S.denotes(S.item(caf(S, a, v, t, b), 0))), S.Iff(S.item(r, 1), S.item(caf(S, a, v, t, b), 1))) if d(S, r) is not None else S.false)),
         },
         props={'shape': ['C01', 'C14'], 'valid': ['C01'], 'flag_iff': ['C01'], 'keep_if_ok': ['C02'], 'no_harm': ['C02'], 'strict_le_5': ['C04'],
-               'chain': ['C04'], 'format_kept': ['C06'], 'wraps_caf': ['C16']},
+               'chain': ['C04'], 'format_kept': ['C06', 'C17'], 'wraps_caf': ['C16', 'C17'], 'effects_only_if': ['C17'], 'pre:to_console': ['C17'], 'pre:to_html_bulk': ['C17']},
     ))
+
+
+def register_visualiser(reg):
+    VI = 'cm_colors.core.visualiser'
+    def is_hex(S, v): return S.true if isinstance(v, VStr) and v.sym and v.sym[0] == 'hex6' else S.false
+    reg.add(Contract(
+        f'{VI}:to_console', params={'fg': 'str', 'bg': 'str', 'tuned_fg': 'str', 'original_level': 'unk', 'new_level': 'unk'},
+        pre=lambda S, a: S.And(is_hex(S, a.fg), is_hex(S, a.bg), is_hex(S, a.tuned_fg)),       # what rich.Style is given: '#rrggbb' made by the library's own formatter
+        result='none', pure=False, raises=(), posts={}, effects=('stdout',),
+        assumed="rich renders styles built from '#rrggbb' strings without raising (exercised by engine E in check C17)"))
+    reg.add(Contract(
+        f'{VI}:to_html_bulk', params={'pairs': 'unk', 'output_path': 'str'},
+        pre=lambda S, a: S.true, result='str', pure=False, raises=(), posts={}, effects=('fs_write:output_path',),
+        assumed='writes exactly the file named by output_path in the working directory and returns its absolute path; never raises in a writable directory (engine C frame + engine E, check C17)'))
